@@ -208,8 +208,21 @@ func vxLoopCut(_, _ string) {}
 
 func vxGuardsOff() {}
 
+// vxStepBudget bounds the number of SSA instructions of the symbolic run from here on (0 = off);
+// natively a run that does not terminate is stopped by the replay's timeout.
+func vxStepBudget(int) {}
+
 // vxMutexHeld reports whether mu is currently locked.
 func vxMutexHeld(mu *sync.Mutex) bool {
+	if mu.TryLock() {
+		mu.Unlock()
+		return false
+	}
+	return true
+}
+
+// vxRWMutexHeld reports whether mu is currently locked (by a writer or by readers).
+func vxRWMutexHeld(mu *sync.RWMutex) bool {
 	if mu.TryLock() {
 		mu.Unlock()
 		return false
